@@ -12,6 +12,14 @@ CLAIMED = {
             "rotations only by numeric oracle (partial).",
             "regenerated anchors + Coq theorems + in-Coq differential correspondence"),
 }
+CLAIMED["C05"] = (
+    "Theorems (Coq, every rational max_shifts >= 0 and every admissible arg-max index): centre crop of the ZNCC/NCC response is "
+    "well-formed (pad_width_eff >= 2, length 2*trunc(m)+1); the 1/20-px refinement mesh is non-empty, stays inside the padded "
+    "response, and every sample keeps |shift| <= m (+5e-5 px code tolerance); FSC variant; PCC coarse crop/unwrap and the "
+    "refinement window contain the coarse peak and keep |shift| <= m. Tie: all scalar index expressions of _zncc/_upsample/_fsc/"
+    "_pcc are regenerated from source each run; _create_mesh and landscape shapes compared with the model inside Coq. "
+    "No-exception/finite-score clauses and loader-level displacement are exercised by an implementation oracle (partial).",
+    "regenerated anchors + Coq theorems (lia/lra) + in-Coq correspondence")
 NOT_YET = "machinery for this property is not built yet in this revision (see DESIGN.md §6 for the planned model)"
 
 def main():
